@@ -23,6 +23,10 @@ type propInfo struct {
 	EnumWhat     string   `json:"EnumWhat"`
 
 	Instrumented bool `json:"-"`
+	// Fallback allows the plain build when the instrumented one fails.
+	Fallback bool `json:"-"`
+	// fellBack records that it happened.
+	fellBack bool
 	// DetRuns is the number of runs the determinism self-test executes in two
 	// processes (default 24).
 	DetRuns    int  `json:"-"`
@@ -37,24 +41,29 @@ type propInfo struct {
 // props lists the properties that have a check.  The descriptive fields are
 // filled from the worker at run time (loadInfo).
 var props = map[string]*propInfo{
-	"C01": {},
-	"C02": {},
-	"C03": {},
-	"C04": {},
-	"C05": {},
-	"C06": {},
-	"C07": {},
-	"C09": {},
-	"C10": {},
-	"C11": {},
-	"C12": {},
-	"C14": {},
-	"C15": {},
-	"C16": {},
-	"C19": {},
-	"C20": {},
+	// Every check runs against the instrumented scratch copy of /repo's working
+	// tree, so that the order of every range-over-map loop inside go-cose is a
+	// tape decision everywhere (C08 and C18 need the copy anyway).  For the
+	// others a tree the instrumenter cannot handle falls back to the plain
+	// build (map order then is the runtime's; said so in the evidence).
+	"C01": {Instrumented: true, Fallback: true},
+	"C02": {Instrumented: true, Fallback: true},
+	"C03": {Instrumented: true, Fallback: true},
+	"C04": {Instrumented: true, Fallback: true},
+	"C05": {Instrumented: true, Fallback: true},
+	"C06": {Instrumented: true, Fallback: true},
+	"C07": {Instrumented: true, Fallback: true},
 	"C08": {Instrumented: true, DetRuns: 400},
+	"C09": {Instrumented: true, Fallback: true},
+	"C10": {Instrumented: true, Fallback: true},
+	"C11": {Instrumented: true, Fallback: true},
+	"C12": {Instrumented: true, Fallback: true},
+	"C14": {Instrumented: true, Fallback: true},
+	"C15": {Instrumented: true, Fallback: true},
+	"C16": {Instrumented: true, Fallback: true},
 	"C18": {Instrumented: true, Extra: c18RacePhase, Replay: c18Replay},
+	"C19": {Instrumented: true, Fallback: true},
+	"C20": {Instrumented: true, Fallback: true},
 }
 
 func loadInfo(bin, id string, p *propInfo) error {
@@ -62,11 +71,11 @@ func loadInfo(bin, id string, p *propInfo) error {
 	if err != nil {
 		return fmt.Errorf("cosesim info: %v", err)
 	}
-	keepI, keepN, keepE, keepR, keepD := p.Instrumented, p.NoMinimise, p.Extra, p.Replay, p.DetRuns
+	keepI, keepN, keepE, keepR, keepD, keepF, keepFB := p.Instrumented, p.NoMinimise, p.Extra, p.Replay, p.DetRuns, p.Fallback, p.fellBack
 	if err := json.Unmarshal(out, p); err != nil {
 		return err
 	}
-	p.Instrumented, p.NoMinimise, p.Extra, p.Replay, p.DetRuns = keepI, keepN, keepE, keepR, keepD
+	p.Instrumented, p.NoMinimise, p.Extra, p.Replay, p.DetRuns, p.Fallback, p.fellBack = keepI, keepN, keepE, keepR, keepD, keepF, keepFB
 	return nil
 }
 
@@ -99,7 +108,8 @@ func writeEvidence(id, tier string, seed uint64, p *propInfo, a *aggregate, det 
 		"determinism_selftest": map[string]any{
 			"tapes": det.tapes, "processes": det.procs, "gomaxprocs": []int{1, 8}, "identical_event_logs": det.ok, "log_sha256": det.hashes,
 		},
-		"exhaustive": false,
+		"exhaustive":          false,
+		"map_iteration_order": mapOrderNote(p),
 	}
 	if len(a.extra) > 0 {
 		cov["counters"] = a.extra
@@ -158,4 +168,11 @@ func selftest() int {
 		return 2
 	}
 	return 0
+}
+
+func mapOrderNote(p *propInfo) string {
+	if p.Instrumented && !p.fellBack {
+		return "owned: worker built against an instrumented scratch copy of /repo's working tree; every range-over-map loop of go-cose follows a tape-drawn permutation (fault kind maporder)"
+	}
+	return "NOT owned in this run: plain build (instrumented build failed), go-cose's map ranges follow the Go runtime's random order"
 }
